@@ -320,3 +320,62 @@ def _occurrences(interp, args, kwargs, node):
 def _is_black(interp, args, kwargs, node):
     v = args[0]
     return VBool(E._arg_term(interp, v) == _black(interp))
+
+
+# ---- density_scatter (discrete mode): term level ---------------------------------------------------------------------------
+_np_unique_prev = E.EXTERNS["numpy.unique"]
+
+
+def _np_unique_opaque(interp, args, kwargs, node):
+    arr = args[0] if args else None
+    if isinstance(arr, VObj) and arr.term is not None and arr.tag in ("ndarray", "object"):
+        rc = kwargs.get("return_counts")
+        kw = {k: kwargs[k] for k in kwargs.keys() if k != "return_counts"}
+        vals = interp.born(opaque(interp, "numpy.unique", [arr], kw, "ndarray"))
+        if rc is not None and concrete_bool(interp.as_bool_term(rc)) is True:
+            cnt = interp.born(opaque(interp, "numpy.unique.counts", [arr], kw, "ndarray"))
+            interp.ctx.assumed.add("extern:numpy.unique(a, return_counts=True, axis=0): the distinct rows of a (sorted) and how often each occurs")
+            return VTuple([vals, cnt])
+        return vals
+    return _np_unique_prev(interp, args, kwargs, node)
+
+
+E.EXTERNS["numpy.unique"] = _np_unique_opaque
+
+_list_prev = E.BUILTINS["list"]
+
+
+def _list_zip_opaque(interp, args, kwargs, node):
+    if len(args) == 1 and isinstance(args[0], E.VZip) and all(isinstance(v, VObj) and v.term is not None for v in args[0].its):
+        return interp.born(opaque(interp, "list.zip", list(args[0].its), None, "object"))
+    return _list_prev(interp, args, kwargs, node)
+
+
+E.BUILTINS["list"] = _list_zip_opaque
+
+
+@method("ndarray", "argsort")
+def _argsort(interp, sv, args, kwargs, node):
+    if not (isinstance(sv, VObj) and sv.term is not None) or args or kwargs:
+        raise Unsupported("argsort form")
+    return interp.born(opaque(interp, "ndarray.argsort", [sv], None, "ndarray"))
+
+
+@extern("matplotlib.pyplot.colorbar")
+def _colorbar(interp, args, kwargs, node):
+    if not interp.spec_mode:
+        _effects(interp).append((VObj("pyplot", z3.Const("pyplot", OBJ)), "colorbar", list(args), dict(kwargs.items())))
+    return interp.born(opaque(interp, "pyplot.colorbar", list(args), dict(kwargs.items()), "object"))
+
+
+@S.spec("drawn_kw")
+def _drawn_kw(interp, args, kwargs, node):
+    """drawn_kw(ax, method, keyword): the keyword argument of THE call ax.method(...)"""
+    ax, m, kw = args
+    name, key = concrete_str(m), concrete_str(kw)
+    calls = [e for e in _effects(interp) if e[1] == name and (e[0] is ax or (isinstance(ax, VObj) and isinstance(e[0], VObj)
+                                                                             and e[0].term is not None and ax.term is not None
+                                                                             and z3.eq(e[0].term, ax.term)))]
+    if len(calls) != 1 or key not in calls[0][3]:
+        return VObj("object", interp.ctx.fresh("no_such_single_call", OBJ))
+    return calls[0][3][key]
